@@ -25,10 +25,10 @@ EXPLANATION = (
 ASSUMPTIONS = [
     "scripted broker: a message counts as taken when listen() yields it; finished when its callback coroutine ended",
     "environment events are injected when the loop is quiescent; at most two consecutive idle poll ticks",
-    "sync tasks / thread pools are not used (async tasks on gates)",
+    "sync task functions run on a gate executor (a pool whose workers finish when the scheduler says so); real threads are not used",
 ]
 TRUSTED = ["CPython 3.12 asyncio (executed as is, virtual clock)", "z3 5.1 (LIA)", "vt.sym explorer", "scripted broker/recording stubs"]
-REQUIRED_COVERS = ["bound_reached", "saturated_with_backlog", "idle_poll", "crashing_message", "ack_in_flight"]
+REQUIRED_COVERS = ["bound_reached", "saturated_with_backlog", "idle_poll", "crashing_message", "ack_in_flight", "sync_tasks"]
 
 
 def bounds(tier: str) -> Dict[str, Any]:
@@ -47,6 +47,8 @@ def cases(tier: str) -> List[Any]:
                 out.append({"M": M, "K": K, "prefix": list(prefix), "crash": True})
             if M == Ms[0]:
                 out.append({"M": M, "K": K, "prefix": list(prefix), "ack_future": True})
+            if M == Ms[-1]:
+                out.append({"M": M, "K": K, "prefix": list(prefix), "sync": True})
     return out
 
 
@@ -56,7 +58,9 @@ def harness(c: sym.Ctx, case: Dict[str, Any]) -> None:
     if case.get("crash"):
         outcomes[0] = "hook_raise"  # a message whose handling crashes must not change the bound for the others
         c.cover("crashing_message")
-    spec = {"M": M, "kinds": ["valid"] * M, "outcomes": outcomes, "A": "sym", "P": "sym", "N": "none", "wtt": None, "K": case["K"], "prefix": case["prefix"], "ack_mode": "future" if case.get("ack_future") else False}
+    spec = {"M": M, "kinds": ["valid"] * M, "outcomes": outcomes, "A": "sym", "P": "sym", "N": "none", "wtt": None, "K": case["K"], "prefix": case["prefix"], "ack_mode": "future" if case.get("ack_future") else False, "sync": bool(case.get("sync"))}
+    if case.get("sync"):
+        c.cover("sync_tasks")
     r = _listen.run(c, spec)
     ev = r.lab.ev
     taken = ended = 0
